@@ -37,7 +37,7 @@ from framelen import Lin
 NEED_MORE = ('ctor', 'Ok', (('ctor', 'None', ()),))
 # calls that take the buffer and leave it as it is (everything else that is handed the buffer counts as touching it: fails closed)
 OBSERVERS = ('len', 'is_empty', 'get', 'first', 'last', 'remaining', 'has_remaining', 'chunk', 'capacity', 'as_ref', 'deref', 'iter',
-             'starts_with', 'ends_with', 'contains', 'as_slice', 'borrow', 'eq', 'ne', 'to_vec')
+             'starts_with', 'ends_with', 'contains', 'as_slice', 'borrow', 'eq', 'ne', 'to_vec', '#index')          # ('#index': a read buf[k] / buf[a..b] as framelen.FramedBuffer records it)
 ACQUIRE = ('std::sync::poison::rwlock::RwLock::<T>::read', 'std::sync::poison::rwlock::RwLock::<T>::write',
            'std::sync::poison::mutex::Mutex::<T>::lock')
 CELLS = ('std::sync::poison::rwlock::RwLock::<T>::new', 'std::sync::poison::mutex::Mutex::<T>::new')
@@ -136,6 +136,8 @@ def same_answer(v, t, pc):
             return True
         if p == ('ctor', 'None', ()) and any(a == ('is', pay, 'Some') and not tr for a, tr in pc):
             return True
+    if v == ('tryerr', t) and known('Err') is True:
+        return True          # `t?` on the failure side: Err(From::from(e)), the identity for the decoder's own error type (it compiles)
     e = v[1] if v[0] == 'tryerr' else v
     if e[0] == 'ctor' and e[1] == 'Err' and len(e[2]) == 1 and known('Err') is True:
         x = e[2][0]
@@ -196,12 +198,19 @@ def check(ctx, f, D, dp, rule, interp_kw=None):
         for e in o.st.ev:
             if e[0] == 'call' and e[1] != dp and any(a == buf for a in e[2]) and e[1].rsplit('::', 1)[-1] not in OBSERVERS:
                 out.append(e[1].rsplit('::', 1)[-1])
+            elif e[0] == 'store-unknown':
+                out.append('an assignment through %s' % (e[1] if isinstance(e[1], str) else absx.fmt(e[1])[:30]))          # e.g. `buf[0] = ..`: whatever it writes, fails closed
+            elif e[0] in ('store', 'update') and absx.leaves(e[1], lambda z: z == buf):
+                out.append('a store to %s' % absx.fmt(e[1])[:30])
         return out
     def stores(o):
-        """what the path may have changed of the codec: fields assigned, cells acquired for writing (fails closed: acquired = changed)"""
-        return sorted({absx.fmt(k)[:40] for k in o.st.heap if isinstance(k, tuple) and absx.leaves(k, lambda z: z == cc.self_t)} |
-                      {'%s(%s)' % (e[1].rsplit('::', 1)[-1], absx.fmt(e[2][0])[:30]) for e in o.st.ev
-                       if e[0] == 'call' and e[1] in ACQUIRE[1:] and e[2] and absx.leaves(e[2][0], lambda z: z == cc.self_t)})
+        """what the path may have changed of the codec: fields assigned; any call that is handed (part of) the codec other than a
+        read acquisition of a cell or an observer - `write()` / `lock()` give mutable access, an unknown callee may do anything
+        (fails closed: handed over = changed)"""
+        rooted = lambda t: absx.leaves(t, lambda z: z == cc.self_t) != []
+        return sorted({absx.fmt(k)[:40] for k in o.st.heap if isinstance(k, tuple) and rooted(k)} |
+                      {'%s(%s)' % (e[1].rsplit('::', 1)[-1], ', '.join(absx.fmt(a)[:30] for a in e[2] if rooted(a))) for e in o.st.ev
+                       if e[0] == 'call' and e[1] != dp and e[1] != ACQUIRE[0] and e[1].rsplit('::', 1)[-1] not in OBSERVERS + ('clone',) and any(rooted(a) for a in e[2])})
     for x in range(256):
         fb = framelen.FramedBuffer(buf, x, None)
         I = framelen.FramedInterp(f, D, summaries=[fb, cc], domain=fb, field_hook=cc.field, combinators=True, unroll=8, **(interp_kw or {}))
@@ -233,8 +242,10 @@ def check(ctx, f, D, dp, rule, interp_kw=None):
                     held.setdefault(cond, []).append((x, H.true_len().show()))
                 continue
             what = 'drops the frame decoder\'s answer and returns %s' % absx.fmt(v)[:60] if dcalls else 'returns %s without asking the frame decoder' % absx.fmt(v)[:60]
-            if dcalls and dcalls[0][2] != (buf,):
-                what = 'applies the frame decoder to %s, not to the caller\'s buffer' % absx.fmt(dcalls[0][2][0])[:50]
+            if dcalls and dcalls[0][2] and dcalls[0][2][0] == buf and len(dcalls[0][2]) > 1:
+                what = 'hands the frame decoder more than the caller\'s buffer (%s): its answer depends on state kept across calls' % ', '.join(absx.fmt(a)[:40] for a in dcalls[0][2][1:])
+            elif dcalls and dcalls[0][2] != (buf,):
+                what = 'applies the frame decoder to %s, not to the caller\'s buffer' % (absx.fmt(dcalls[0][2][0])[:50] if dcalls[0][2] else 'nothing')
             bad.setdefault('a path of Decoder::decode %s' % what, []).append(x)
     argument = ('a pre-test may answer Ok(None) only where the frame decoder would, i.e. while the outermost element is incomplete; '
                 'the shortest complete element is %d octets (identifier octet, length octet 0x%02x), so `len(buf) < N` is dead code for N <= %d '
